@@ -13,6 +13,10 @@ pub struct TraceRng {
     pub u32_calls: u64,
     pub u64_calls: u64,
     pub byte_calls: u64,
+    /// hostile prefix: the first `script_left` raw draws return `script_words` in rotation
+    script_words: [u64; 2],
+    script_left: u32,
+    script_pos: u32,
 }
 
 /// Position of a generator: number of calls made so far and the next word it would
@@ -38,7 +42,61 @@ impl TraceRng {
             u32_calls: 0,
             u64_calls: 0,
             byte_calls: 0,
+            script_words: [0, 0],
+            script_left: 0,
+            script_pos: 0,
         }
+    }
+
+    /// A stream that starts with a hostile prefix - all zeros, all ones, alternating extremes,
+    /// only the top bit, only the low bit - and then continues pseudo-randomly (so that rejection
+    /// loops inside the sampling library still terminate). "For all random streams" includes
+    /// these: they put every sampler on its boundary values (r = 0.0, index 0, index n-1, both
+    /// cut points equal, ...). Pattern and prefix length are derived from the seed.
+    #[must_use]
+    pub fn hostile(seed: u64) -> Self {
+        let mut t = Self::new(seed);
+        let words = match (seed >> 3) % 6 {
+            0 => [0, 0],
+            1 => [u64::MAX, u64::MAX],
+            2 => [0, u64::MAX],
+            3 => [u64::MAX, 0],
+            4 => [1 << 63, 1 << 31],
+            _ => [1, 1 << 32],
+        };
+        t.script_words = words;
+        t.script_left = match (seed >> 7) % 4 {
+            0 => 3,
+            1 => 40,
+            2 => 700,
+            _ => 20_000,
+        };
+        t
+    }
+
+    /// All 24 hostile prefixes (6 patterns x 4 prefix lengths) over a pseudo-random tail.
+    pub fn hostile_variants(salt: u64) -> impl Iterator<Item = Self> {
+        (0..24u64).map(move |k| Self::hostile((salt << 9) | ((k / 6) << 7) | ((k % 6) << 3)))
+    }
+
+    /// One stream in eight is hostile, the others pseudo-random.
+    #[must_use]
+    pub fn stream(seed: u64) -> Self {
+        if seed % 8 == 0 {
+            Self::hostile(seed)
+        } else {
+            Self::new(seed)
+        }
+    }
+
+    fn scripted(&mut self) -> Option<u64> {
+        if self.script_left == 0 {
+            return None;
+        }
+        self.script_left -= 1;
+        let w = self.script_words[(self.script_pos % 2) as usize];
+        self.script_pos += 1;
+        Some(w)
     }
 
     #[must_use]
@@ -51,7 +109,8 @@ impl TraceRng {
         let mut c = self.inner.clone();
         Fingerprint {
             calls: self.calls,
-            next_word: c.next(),
+            // the position inside a scripted prefix is part of the position
+            next_word: c.next() ^ u64::from(self.script_left).rotate_left(40),
         }
     }
 
@@ -67,18 +126,31 @@ impl RngCore for TraceRng {
     fn next_u32(&mut self) -> u32 {
         self.calls += 1;
         self.u32_calls += 1;
+        if let Some(w) = self.scripted() {
+            return (w >> 32) as u32 | w as u32;
+        }
         self.inner.next_u32()
     }
 
     fn next_u64(&mut self) -> u64 {
         self.calls += 1;
         self.u64_calls += 1;
+        if let Some(w) = self.scripted() {
+            return w;
+        }
         self.inner.next_u64()
     }
 
     fn fill_bytes(&mut self, dst: &mut [u8]) {
         self.calls += 1;
         self.byte_calls += 1;
+        if self.script_left > 0 {
+            for chunk in dst.chunks_mut(8) {
+                let w = self.scripted().unwrap_or_else(|| self.inner.next_u64()).to_le_bytes();
+                chunk.copy_from_slice(&w[..chunk.len()]);
+            }
+            return;
+        }
         self.inner.fill_bytes(dst);
     }
 }
